@@ -139,6 +139,17 @@ class SymCtx:
         from .stdlib import FileModel
         return FileModel(content)
 
+    def call(self, target, *args, **kwargs):
+        """run another real function (through the interpreter) while building the pre-state"""
+        return self.it.call(self.loader.find_function(target), list(args), kwargs)
+
+    def new(self, qualname, *args, **kwargs):
+        """instantiate a repo class by running its real __init__"""
+        return self.it.instantiate(self.loader.find_class(qualname), list(args), kwargs)
+
+    def localtime(self, t):
+        return self.it.call(self.loader.load('time').ns['localtime'], [t], {})
+
 
 class ConcCtx:
     """Concrete context: named inputs come from a values dict (a counter-model or a sample);
@@ -202,6 +213,17 @@ class ConcCtx:
     def file(self, content=b''):
         import io
         return io.BytesIO(bytes(content))
+
+    def call(self, target, *args, **kwargs):
+        return resolve_real(target)(*args, **kwargs)
+
+    def new(self, qualname, *args, **kwargs):
+        return self.cls(qualname)(*args, **kwargs)
+
+    def localtime(self, t):
+        import time
+        time.tzset()
+        return time.localtime(t)
 
 
 def resolve_real(target):
